@@ -15,20 +15,16 @@ def run(run):
     if not L.build(run):
         return
     quick = run.tier == "quick"
-    fams = [("corpus:corpus/C09/stop-between-setconfig-and-boot.jsonl", 0, 0), ("f8", 4, run.seed), ("stale", 4, run.seed),
+    fams = [("corpus:corpus/C09/stop-between-setconfig-and-boot.jsonl", 0, 0),
+            ("corpus:corpus/C09/stale-stop-on-restarted-child.jsonl", 0, 0), ("f8", 4, run.seed), ("stale", 4, run.seed),
             ("c09", 1500 if quick else 20000, run.seed), ("boot", 300 if quick else 3000, run.seed + 1),
             ("c11", 400 if quick else 5000, run.seed + 2)]
     results, cover, summary, scripts, traces = L.run_families(run, fams)
     cnt = L.classify(run, "C09", results, scripts, traces)
-    st = [r for r in results if r["family"] == "stale"]
-    if st and not any(int(r["c09"]) == 20 for r in st) and any(f["key"] == "stale-stop-on-restarted-child" for f in run.findings):
-        run.notes.append("known finding stale-stop-on-restarted-child was NOT exhibited by the implementation in this run "
-                         "(family stale: a restarted child parked before Run, then a second restart): the entry is stale; "
-                         "switch the model to fix_stale = true (driver argument stale=1)")
     L.fill_coverage(run, results, cover, summary, scripts, cnt,
                     rule="distinct = distinct (pool, initial config, director script) among accepted traces; families: corpus + f8 (the repaired "
                          "stop-between-setconfig-and-boot witness, mock and real nested composite children; must now end unblocked), stale (the "
-                         "stale-stop witness: a restarted child parked before Run, then a second restart), c09 (a reload that grows/replaces/permutes/keeps the "
+                         "repaired stale-stop witness: a restarted child parked before Run, then a second restart; must now hold), c09 (a reload that grows/replaces/permutes/keeps the "
                          "membership, the reloader parked on one of 12 log records delimiting its steps, then Stop()/cancel/a second "
                          "Reload()/nothing injected, both Stop styles, 1 in 6 with a real composite.Runner child), boot (Reload/Stop/"
                          "cancel while Run is booting), c11 (unparked reload histories incl. concurrent callers)")
